@@ -123,6 +123,12 @@ def run(chk, replay=None):
                 text = text.replace('interface="public"/>', 'interface="public" initial_value="1"/>', 1)
             elif r < 0.25:    # unknown element
                 text = text.replace('<plus/>', '<foo/>', 1)
+            elif r < 0.33 and '</component>' in text:
+                # unsuitably constrained: one variable computed twice and one never computed, in a component of their own
+                text = text.replace('</component>', '</component>\n  <component name="zuc"><variable name="zx" units="dimensionless"/><variable name="zy" units="dimensionless"/>'
+                                    '<math xmlns="http://www.w3.org/1998/Math/MathML"><apply><eq/><ci>zy</ci><cn cellml:units="dimensionless">1</cn></apply>'
+                                    '<apply><eq/><ci>zy</ci><cn cellml:units="dimensionless">3</cn></apply></math></component>', 1)
+                stats['unsuitably_constrained_made'] = stats.get('unsuitably_constrained_made', 0) + 1
             cases.append((text, ext, typed))
         # NLA blocks: one or two systems of several equations each, their equations interleaved, some unknowns marked external
         import nlasys as N
@@ -242,7 +248,7 @@ def run(chk, replay=None):
             corr.append(('%s: helpers predicted from the equation ASTs %s, emitted %s (need-flags %s)' % (pr, ph, emitted, need), text, ext))
     chk.cov.update(evaluations=len(struct_lines), distinct_nontrivial=stats['valid'],
                    rule='generated systems (constants, computed constants, algebraic variables, states; 1-4 connected components with scaled units; random expressions over the whole operator set; '
-                        'a quarter with an NLA block, a third with external variables, a quarter made invalid: missing equation, double definition, unknown element; no model) x {C, Python}; '
+                        'a quarter with an NLA block, a third with external variables, a third made invalid: missing equation, double definition, unknown element, unsuitably constrained (one variable computed twice, one never); no model) x {C, Python}; '
                         'one evaluation = one valid (system, profile): counts, info entries, buffer sizes, prototypes, helper set, compile / load',
                    samples=[struct_lines[0][:300] if struct_lines else '', model[0][:200] if model else ''],
                    traces_validated_against_impl=len(struct_lines) - len(corr), exhaustive=False, outcome_histogram=stats)
